@@ -1,13 +1,32 @@
 # C04 — escaped output never lets data-supplied markup through.
+#
+# Every case is ONE template rendered twice by the real engine: with a hostile string h at the data positions and with a
+# harmless marker m at the same positions (when h is a map KEY, the marker is the key there).  Oracle on Go's own two
+# outputs: out_h = replace_all m (escape h) out_m.  Three streams:
+#   A  carriers  — one expression shape (concatenation, conditional, default, template literal, array, slice/join, nested)
+#                  around a hostile position, inside tags / if / each;
+#   B  routes    — every way data reaches an escaping construct: map KEYS through the key variable of `each v, k in obj`,
+#                  elements by index and by loop (arrays, maps, arrays of maps, nested maps), mixin parameters, the
+#                  `attributes` of a mixin call, the block of a mixin call, variables declared from data, the text of a
+#                  caught exception (try / catch around JSON.parse of data);
+#   C  state     — escaped code inside / after everything that sets compile-time state: unescaped and unbuffered code,
+#                  multi-statement code, mixin definitions and call blocks ending in unescaped code, interpolated tags
+#                  (`#{tg}` + block, nested, before / after / around code nodes).
+# Interpolated tags and try/catch have no constructor in the pug model: such cases are OPAQUE — sent to the engine as raw
+# AST JSON, passed to the judge as stand-ins for the domain test, judged by the oracle alone.
+import json
 import tgen
 import tmpl
-from core import CoreProp, ser, de, tc_case
-from common import cq_bytes
+from core import CoreProp, ser, de, shrink_nodes, FUNCS, obsm_coq
+from common import cq_bytes, cq_bool, cq_list, hx, unhx
 
 MARK = b"MARKq7Zx"
+MARK1 = b"Q"        # marker of the caught route (one byte of the data reaches the error text)
 H_BASE = [b"<b>", b"</div>", b'"', b"'", b"&", b"&amp;", b"<script>alert(1)</script>", b'" onload="x', b"a<b>c&d\"e'f",
           b"{{", b"}}", b"{{.}}", b"{{- x -}}", b"`", b"\\", b"&#34;", b"<!--", b"]]>", b"\xc3\xa9<", b"<<>>",
           b"'><img src=x>", b"{{/* c */}}", b"${x}", b"x<y", b"<a href='j'>", b"&lt;", b"</script>", b"-->", b"<%", b"a b<c d>"]
+H_CAUGHT = [b"<", b">", b"&", b'"']     # encoding/json quotes these verbatim in `invalid character 'c' after top-level value`
+ITAG_NAMES = [b"div", b"span", b"p", b"section", b"b"]
 
 
 def hostile(rng):
@@ -21,42 +40,322 @@ def hostile(rng):
     return b"<" + s.strip() + b">"
 
 
+# ---- the two node kinds the pug model has no constructor for -------------------------------------------------------
+# ('itag', expr, inline, [node])                         pug `#{expr} ...`  (AST type InterpolatedTag)
+# ('trycode', [stmt], evar, [stmt], must_escape, inline) a code node `try { ... } catch (evar) { ... }`
+
+def try_src(n):
+    return (b"try { " + b"; ".join(tmpl.stmt_src(s) for s in n[1]) + b" } catch (" + n[2] + b") { "
+            + b"; ".join(tmpl.stmt_src(s) for s in n[3]) + b" }")
+
+
+def pj(n):
+    """pug AST JSON of a node (tmpl.pug_json + the opaque kinds, at any depth)"""
+    k = n[0]
+    blk = lambda l: {"type": "Block", "nodes": [pj(x) for x in l]}
+    if k == 'itag':
+        return {"type": "InterpolatedTag", "expr": tmpl.s_(tmpl.js_src(n[1])), "isInline": n[2], "selfClosing": False,
+                "attrs": [], "attributeBlocks": [], "block": blk(n[3])}
+    if k == 'trycode':
+        return {"type": "Code", "val": tmpl.s_(try_src(n)), "buffer": False, "mustEscape": n[4], "isInline": n[5]}
+    d = tmpl.pug_json(n[:5] + ([],) if k == 'tag' else n[:2] + ([], None) if k == 'cond' else
+                      n[:4] + ([],) if k in ('each', 'call') else n[:3] + ([],) if k == 'mixin' else
+                      (k, []) if k == 'block' else n)
+    if k == 'tag':
+        d["block"] = blk(n[5])
+    elif k == 'cond':
+        d["consequent"] = blk(n[2])
+        d["alternate"] = None if n[3] is None else pj(n[3])
+    elif k == 'each':
+        d["block"] = blk(n[4])
+    elif k == 'call':
+        d["block"] = blk(n[4]) if n[4] else None
+    elif k == 'mixin':
+        d["block"] = blk(n[3])
+    elif k == 'block':
+        d = blk(n[1])
+    return d
+
+
+def pc(n):
+    """Gallina term of a node; the opaque kinds as the stand-ins described in Run/Judge_C04.v"""
+    k = n[0]
+    L = lambda l: cq_list([pc(x) for x in l])
+    if k == 'itag':
+        return (b'(PTag (B "#{") ' + cq_bool(n[2]) + b' [{| pa_name := B "expr"; pa_val := ' + tmpl.js_coq(n[1])
+                + b'; pa_esc := false |}] [] ' + L(n[3]) + b')')
+    if k == 'trycode':
+        blk = lambda st: b'(SBlock ' + cq_list([tmpl.stmt_coq(s) for s in st]) + b')'
+        return (b'(PCode [SIf (JId (B "#try")) ' + blk(n[1]) + b' (Some ' + blk(n[3]) + b')] ' + cq_bool(n[4]) + b' '
+                + cq_bool(n[5]) + b')')
+    if k == 'tag':
+        return (b'(PTag ' + cq_bytes(n[1]) + b' ' + cq_bool(n[2]) + b' ' + cq_list([tmpl.attr_coq(a) for a in n[3]]) + b' '
+                + cq_list([cq_bytes(a) for a in n[4]]) + b' ' + L(n[5]) + b')')
+    if k == 'cond':
+        return (b'(PCond ' + tmpl.js_coq(n[1]) + b' ' + L(n[2]) + b' '
+                + (b'None' if n[3] is None else b'(Some ' + pc(n[3]) + b')') + b')')
+    if k == 'each':
+        return (b'(PEach ' + cq_bytes(n[1]) + b' ' + (b'None' if n[2] is None else b'(Some ' + cq_bytes(n[2]) + b')') + b' '
+                + tmpl.js_coq(n[3]) + b' ' + L(n[4]) + b')')
+    if k == 'mixin':
+        return b'(PMixinDef ' + cq_bytes(n[1]) + b' ' + cq_list([cq_bytes(p) for p in n[2]]) + b' ' + L(n[3]) + b')'
+    if k == 'call':
+        return (b'(PMixinCall ' + cq_bytes(n[1]) + b' ' + cq_list([tmpl.js_coq(a) for a in n[2]]) + b' '
+                + cq_list([tmpl.attr_coq(a) for a in n[3]]) + b' ' + L(n[4]) + b')')
+    if k == 'block':
+        return b'(PBlock ' + L(n[1]) + b')'
+    return tmpl.pug_coq(n)
+
+
+def kids(n):
+    k = n[0]
+    if k == 'tag':
+        return n[5]
+    if k == 'cond':
+        return n[2] + ([n[3]] if n[3] is not None else [])
+    if k in ('each', 'call'):
+        return n[4]
+    if k in ('mixin', 'itag'):
+        return n[3]
+    if k == 'block':
+        return n[1]
+    return []
+
+
+def walk(nodes):
+    for n in nodes:
+        yield n
+        for x in walk(kids(n)):
+            yield x
+
+
+def is_opaque(nodes):
+    return any(n[0] in ('itag', 'trycode') for n in walk(nodes))
+
+
+def file_text(nodes):
+    return json.dumps({"type": "Block", "nodes": [pj(n) for n in nodes]}, ensure_ascii=False).encode('utf-8', 'surrogateescape')
+
+
+G_BASES = [('id', b"h"), ('dot', ('id', b"ho"), b"k"), ('idx', ('id', b"ha"), ('num', 0)), ('id', b"h")]
+G_DEEP = [('dot', ('dot', ('id', b"hn"), b"a"), b"b"), ('dot', ('idx', ('id', b"hl"), ('num', 0)), b"k"),
+          ('idx', ('dot', ('id', b"hn"), b"l"), ('num', 0))]
+
+
+class Gen:
+    """streams B and C: node lists over a scope (the hostile-carrying expressions visible at this point)"""
+
+    def __init__(self, prop, rng, caught):
+        self.p, self.rng, self.caught, self.n = prop, rng, caught, 0
+        self.defs = []          # mixin definitions made so far: (name, params)
+
+    def fresh(self, prefix):
+        self.n += 1
+        return prefix + str(self.n).encode()
+
+    def carrier(self, bases, depth):
+        return self.p.carrier(None, self.rng, depth, bases)
+
+    def esc_code(self, bases):
+        r = self.rng
+        return ('code', [('expr', self.carrier(bases, r.choice([0, 0, 1, 1, 2])))], True, r.random() < 0.7)
+
+    def raw_code(self):
+        """code that sets compile-time state and prints harmless things only: unescaped, unbuffered, multi-statement"""
+        r = self.rng
+        k = r.random()
+        if k < 0.3:
+            return ('code', [('expr', ('id', r.choice([b"s", b"w"])))], False, r.random() < 0.7)
+        if k < 0.42:
+            return ('code', [('expr', ('bin', '+', ('id', b"w"), r.choice([('id', b"s"), ('str', b"</i>")])))], False, True)
+        if k < 0.52:
+            return ('code', [('expr', ('str', r.choice([b"<i>", b"lit", b"a&b"])))], False, True)
+        if k < 0.72:
+            return ('code', [('vars', [('var', self.fresh(b"n"), r.choice([('num', 1), ('str', b"v"), ('id', b"s")]))])], False, False)
+        if k < 0.86:
+            a, b = self.fresh(b"n"), self.fresh(b"n")
+            return ('code', [('vars', [('var', a, ('num', 1))]), ('vars', [('var', b, ('id', b"s"))])] +
+                    ([('expr', ('id', b))] if r.random() < 0.5 else []), False, False)
+        x = self.fresh(b"n")
+        return ('code', [('vars', [('var', x, ('num', 2))]), ('expr', ('assign', ('id', x), ('bin', '+', ('id', x), ('num', 1)))),
+                         ('expr', ('id', x))], False, r.random() < 0.5)
+
+    def declared(self, bases):
+        """a variable declared from data, printed later: `- var hx = e` + `= hx`, or both in one escaped code node"""
+        r = self.rng
+        x = self.fresh(b"hx")
+        e = self.carrier(bases, r.choice([0, 0, 1]))
+        if r.random() < 0.5:
+            return [('code', [('vars', [('var', x, e)])], False, False), ('code', [('expr', ('id', x))], True, True)]
+        extra = [('expr', ('bin', '+', ('str', b"+"), ('id', x)))] if r.random() < 0.4 else []
+        return [('code', [('vars', [('var', x, e)]), ('expr', ('id', x))] + extra, True, r.random() < 0.5)]
+
+    def trycode(self, bases):
+        r = self.rng
+        ev = self.fresh(b"he")
+        body = []
+        if not self.caught or r.random() < 0.5:
+            body.append(('expr', self.carrier(bases, r.choice([0, 1]))))
+        if self.caught:
+            body.append(('expr', ('call', ('dot', ('id', b"JSON"), b"parse"), [('id', b"hj")])))
+        catch = [('expr', r.choice([('id', ev), ('bin', '+', ('str', b"E:"), ('id', ev))]))]
+        return ('trycode', body, ev, catch, True, r.random() < 0.5)
+
+    def each(self, bases, depth, mix):
+        r = self.rng
+        k = r.random()
+        v = self.fresh(b"hv")
+        if k < 0.45:
+            key = self.fresh(b"hk")
+            inner = [('id', key), ('id', key), ('id', v)]
+            obj = ('id', b"hm")
+        elif k < 0.6:
+            key = self.fresh(b"hi") if r.random() < 0.5 else None
+            inner, obj = [('id', v)], ('id', b"ha")
+        elif k < 0.75:
+            key, inner, obj = None, [('dot', ('id', v), b"k")], ('id', b"hl")
+        elif k < 0.87:
+            key = self.fresh(b"hk")
+            inner, obj = [('id', v)], r.choice([('id', b"ho"), ('dot', ('id', b"hn"), b"a")])
+        else:
+            key, inner, obj = None, [('id', v)], ('dot', ('id', b"hn"), b"l")
+        body = self.nodes(inner + ([r.choice(bases)] if r.random() < 0.3 else []), depth - 1, mix)
+        if not any(n[0] == 'code' and n[2] for n in body):
+            body.append(('code', [('expr', r.choice(inner))], True, True))
+        return ('each', v, key, obj, body)
+
+    def mixin(self, depth, mix):
+        """a definition (appended to self.defs) whose body prints its parameters, `attributes` members and the block"""
+        r = self.rng
+        name = self.fresh(b"mx")
+        params = [self.fresh(b"hp") for _ in range(r.choice([0, 1, 1, 2]))]
+        inner = [('id', p) for p in params] + [('dot', ('id', b"attributes"), r.choice([b"t", b"cls"]))] * r.choice([1, 2])
+        body = self.nodes(inner, min(depth, 1), mix)
+        body.append(('code', [('expr', r.choice(inner))], True, True))
+        if r.random() < 0.6:
+            body.insert(r.randrange(len(body) + 1), ('mixinblock',))
+        if r.random() < 0.35:
+            body.append(self.raw_code())            # the definition ends in state-setting code
+        self.defs.append((name, params))
+        return ('mixin', name, params, body)
+
+    def call(self, bases, depth, mix):
+        r = self.rng
+        name, params = r.choice(self.defs)
+        lit = lambda: ('str', r.choice([b"x", b"lit", b"a b"]))
+        args = [self.carrier(bases, r.choice([0, 0, 1])) if r.random() < 0.75 else lit() for _ in params]
+        attrs = []
+        for a in r.sample([b"t", b"cls"], r.choice([0, 1, 1, 2])):
+            attrs.append((a, self.carrier(bases, r.choice([0, 0, 1])) if r.random() < 0.8 else lit(), True))
+        blk = self.nodes(bases, depth - 1, mix) if depth > 0 and r.random() < 0.6 else []
+        return ('call', name, args, attrs, blk)
+
+    def nodes(self, bases, depth, mix):
+        r = self.rng
+        out = []
+        for _ in range(r.choice([1, 2, 2, 3])):
+            k = r.random()
+            if depth <= 0:
+                k = k * mix['flat']
+            if k < mix['esc']:
+                out.append(self.esc_code(bases))
+            elif k < mix['raw']:
+                out.append(self.raw_code())
+            elif k < mix['decl']:
+                out.extend(self.declared(bases))
+            elif k < mix['text']:
+                out.append(('text', r.choice([b"t", b"a b", b"x:", b"<i>", b"&"])))
+            elif k < mix['try']:
+                out.append(self.trycode(bases))
+            elif k < mix['tag']:
+                out.append(('tag', r.choice(tgen.TAGS), r.random() < 0.5, [], [], self.nodes(bases, depth - 1, mix)))
+            elif k < mix['itag']:
+                out.append(('itag', ('id', b"tg"), r.random() < 0.5, self.nodes(bases, depth - 1, mix)))
+            elif k < mix['cond']:
+                c = r.choice([('id', b"p"), ('bool', True), ('un', '!', ('id', b"p"))])
+                alt = ('block', self.nodes(bases, depth - 1, mix)) if r.random() < 0.5 else None
+                out.append(('cond', c, self.nodes(bases, depth - 1, mix), alt))
+            elif k < mix['each']:
+                out.append(self.each(bases, depth, mix))
+            elif self.defs:
+                out.append(self.call(bases, depth, mix))
+            else:
+                out.append(self.esc_code(bases))
+        return out
+
+
+#        cumulative shares of the node kinds; 'flat' scales the draw at depth 0 so that only leaf kinds are chosen
+MIX_B = {'esc': 0.30, 'raw': 0.33, 'decl': 0.41, 'text': 0.47, 'try': 0.48, 'tag': 0.59, 'itag': 0.61, 'cond': 0.68, 'each': 0.88,
+         'flat': 0.48}
+MIX_C = {'esc': 0.28, 'raw': 0.48, 'decl': 0.54, 'text': 0.58, 'try': 0.59, 'tag': 0.69, 'itag': 0.85, 'cond': 0.91, 'each': 0.95,
+         'flat': 0.59}
+
+
 class C04(CoreProp):
     id = "C04"
     judge_module = "Run.Judge_C04"
     prop_module = "Props.C04"
     prop_file = "Props/C04.v"
     coq_targets = ["Props/C04.vo", "Run/Judge_C04.vo", "Props/Tables.vo"]
-    sizes = {"quick": 500, "thorough": 20000}
+    sizes = {"quick": 700, "thorough": 16000}
     design_ref = "DESIGN.md section 6/C04"
     keep_datas = True
-    rule = ("templates made of tags, text, conditionals and loops around escaped buffered code (`= e`, `#{e}`) whose expression "
-            "is one of the string-transparent shapes (variable, member, index, concatenation, conditional, logical default, "
-            "slice(0)/join results, template literal, array literal, nested), rendered twice by the real engine: with a hostile "
-            "string h (all five special characters, template delimiters, back-ticks, multi-byte) at the data positions and with a "
-            "fresh harmless marker m there; oracle on Go's own outputs: out_h = replace_all m (escape h) out_m. "
-            "non-trivial = h contains a special character and the carrier expression is not a bare variable")
+    rule = ("ONE template rendered twice by the real engine (fresh engine each): with a hostile string h (all five special "
+            "characters, template delimiters, back-ticks, multi-byte) at every h-named data position — h, ho.k, ha[0], hn.a.b, "
+            "hn.l[0], hl[0].k and as the KEY of the map hm — and with a fresh harmless marker m at the same positions (as the key "
+            "too); oracle on Go's own outputs: out_h = replace_all m (escape h) out_m. Three streams. A (35%) carriers: tags, text, "
+            "if, each around escaped code (`= e`, `#{e}`) whose expression is a string-transparent shape (variable, member, index, "
+            "concatenation, conditional, logical default / guard, slice(0) / join results, template literal, array literal, nested), "
+            "30% with the same expression text unescaped in a never-taken branch. B (35%) routes: `each v, k in hm` printing the KEY "
+            "variable (`= k`, carriers around k) and the value, loops with index over arrays, over arrays of maps, over maps and "
+            "nested members, variables declared from data (`- var hx = e` then `= hx`; `var hx = e; hx` in one escaped node), mixins "
+            "whose bodies print their parameters, members of `attributes` and the block, called with carrier arguments, attributes "
+            "and blocks, try/catch code printing a member in the try part. C (30%) compile-time state: the same escaped code "
+            "inside / after unescaped code (`!= s`), unbuffered declarations, multi-statement code, mixin definitions ending in "
+            "unescaped code, and interpolated tags `#{tg}` (16% of C's node draws; nested, around and between code nodes). "
+            "8% of B and C cases are CAUGHT-route cases: h is one of < > & \" , m is one byte, and a try/catch code node prints the "
+            "text of the exception JSON.parse throws on the data `1`+h. Templates with an interpolated tag or try/catch (no "
+            "constructor in the pug model) are OPAQUE: raw AST JSON to the engine, stand-ins to the judge's domain test, verdict by "
+            "the oracle alone (unmodelled when it holds). A generated case outside dom04 is an alarm of its own. "
+            "non-trivial = h contains a special character and the template is more than one bare-variable code node")
     trusted = [
-        "M = Pug/Compile.v (renderExpression wrap/rawmode arms), Tmpl/Runtime.v, Tmpl/Exec.v: hand-written model, compared with the engine on both renders",
+        "M = Pug/Compile.v (renderExpression wrap/rawmode arms, rawmode threaded through the node list), Tmpl/Runtime.v, Tmpl/Exec.v: "
+        "hand-written model, compared with the engine on both renders of every non-opaque case",
         "the oracle needs no model: it relates two outputs of the implementation by replace_all/escape evaluated inside Coq",
+        "interpolated tags and try/catch code have no constructor in Pug/Ast.v / Js/Ast.v: such templates reach the engine as raw AST "
+        "JSON (gen/c04.py pj) and the judge as stand-ins for the domain test only (Run/Judge_C04.v shape04 with k_opaque); no model "
+        "prediction is compared there",
+        "the pug front end is not available offline: ASTs are generated (mustEscape / buffer / isInline flags set by the generator; "
+        "try/catch code is sent with mustEscape = true)",
+        "caught route: encoding/json's syntax error `invalid character 'c' after top-level value` quotes the bytes < > & \" verbatim",
     ]
     assumptions = [
         "the hostile string and the marker are non-empty and have no white space at their edges (template literals trim theirs)",
-        "the marker is special-free and does not occur in the emitted template text",
+        "the marker is special-free, does not occur in the emitted template text nor in the harmless data",
+        "naming rule of the domain (checked by dom04 on every case): only h-named top-level data, loop variables, mixin parameters, "
+        "declared variables and `attributes` carry the hostile string; unescaped / unbuffered code prints expressions without such "
+        "names only; all other data is equal in both renders",
+        "map keys: other keys of the map hm are chosen so that h and m take the same place in the engine's sorted iteration order",
+        "the tag name of an interpolated tag is harmless data (equal in both renders)",
     ]
     not_yet_proved = [
         "C04_marker as one theorem over all transparent contexts (render T[ctx] d[x:=h] = subst m (escape h) (render T[ctx] d[x:=m])): "
         "proved are the shape theorem for every expression constructor, the escaper-output theorem, harmlessness, reader round trip and "
-        "escape_app; the composition through the executor for every context is checked on the implementation's outputs by the oracle",
+        "escape_app; the composition through the executor for every context, the threading of the compiler's raw-mode flag through "
+        "node lists (code nodes, mixin definitions, interpolated tags) and the boxing of every value that reaches the escaper (map "
+        "keys, caught exceptions) are checked on the implementation's outputs by the oracle only",
+        "no theorem mentions interpolated tags or try/catch: the pug / JS model has no constructor for them (opaque cases)",
     ]
 
-    def carrier(self, g, rng, depth):
+    # ---------------------------------------------------------------- expressions
+    def carrier(self, g, rng, depth, bases=None):
         """a transparent expression carrying one of the hostile positions"""
-        base = rng.choice([('id', b"h"), ('dot', ('id', b"ho"), b"k"), ('idx', ('id', b"ha"), ('num', 0)), ('id', b"h")])
+        bases = bases or G_BASES
+        base = rng.choice(bases)
         if depth <= 0:
             return base
         k = rng.random()
-        sub = lambda: self.carrier(g, rng, depth - 1)
+        sub = lambda: self.carrier(g, rng, depth - 1, bases)
         lit = lambda: ('str', rng.choice([b"x", b"-", b" ", b"pre:", b"a b", b"", b"."]) or b"q")
         if k < 0.18:
             return ('bin', '+', lit(), sub())
@@ -68,18 +367,20 @@ class C04(CoreProp):
         if k < 0.52:
             return ('bin', '||', sub(), lit())
         if k < 0.58:
-            return ('bin', '&&', ('id', b"h"), sub())
+            return ('bin', '&&', rng.choice(bases), sub())
         if k < 0.68:
             return ('tpl', [rng.choice([b"", b"a", b"t "]), sub(), rng.choice([b"", b"z", b" u"])])
         if k < 0.76:
             return ('arr', [sub()] + ([lit()] if rng.random() < 0.4 else []))
         if k < 0.84:
-            r = rng.choice([('id', b"h"), ('dot', ('id', b"ho"), b"k"), ('idx', ('id', b"ha"), ('num', 0))])
-            return ('call', ('dot', r, b"slice"), [('num', 0)])
+            # not on a loop's key variable: that one is a native Go string without methods
+            recv = [b for b in bases if not (b[0] == 'id' and b[1].startswith(b"hk"))] or G_BASES
+            return ('call', ('dot', rng.choice(recv), b"slice"), [('num', 0)])
         if k < 0.9:
             return ('call', ('dot', ('id', b"ha"), b"join"), [('str', rng.choice([b",", b"", b"-"]))])
         return base
 
+    # ---------------------------------------------------------------- stream A
     def nodes(self, g, rng, depth):
         out = []
         for _ in range(rng.choice([1, 1, 2, 3])):
@@ -98,43 +399,125 @@ class C04(CoreProp):
                 out.append(('each', b"h", None, ('id', b"ha"), self.nodes(g, rng, depth - 1)))
         return out
 
+    def gen_carriers(self, rng):
+        nodes = self.nodes(None, rng, rng.choice([0, 1, 2, 3]))
+        if rng.random() < 0.3:
+            # the SAME expression text also occurs unescaped (`!= e`) in a branch that is never taken, before or
+            # after the escaped use: how one code node is compiled must not depend on another one with equal text
+            codes = [n for n in nodes if n[0] == 'code']
+            if codes:
+                twin = ('cond', ('id', b"never"), [('code', codes[0][1], False, codes[0][3])], None)
+                nodes.insert(0 if rng.random() < 0.7 else len(nodes), twin)
+        return nodes
+
+    # ---------------------------------------------------------------- streams B and C
+    def gen_routes(self, rng, caught, mix):
+        g = Gen(self, rng, caught)
+        bases = G_BASES + G_DEEP
+        depth = rng.choice([1, 2, 2, 3])
+        defs = []
+        if rng.random() < (0.45 if mix is MIX_B else 0.35):
+            for _ in range(rng.choice([1, 1, 2])):
+                defs.append(g.mixin(depth, mix))
+        nodes = g.nodes(bases, depth, mix)
+        if g.defs:
+            for _ in range(rng.choice([1, 1, 2])):
+                call = g.call(bases, depth, mix)
+                pos = rng.randrange(len(nodes) + 1)
+                if rng.random() < 0.3:
+                    call = ('tag', rng.choice(tgen.TAGS), False, [], [], [call])
+                nodes.insert(pos, call)
+        nodes = defs + nodes
+        if mix is MIX_B and not any(n[0] == 'each' for n in walk(nodes)):
+            nodes.append(g.each(bases, 1, mix))
+        if mix is MIX_C:
+            # the file ends in escaped code: whatever state the constructs before it left behind
+            nodes.append(g.esc_code(bases))
+        if caught and not any(n[0] == 'trycode' for n in walk(nodes)):
+            nodes.insert(rng.randrange(len(nodes) + 1), g.trycode(bases))
+        return nodes
+
     def generate(self, rng, n, tier):
         cases = []
         for i in range(n):
-            g = tgen.TGen(rng)
-            h = hostile(rng)
+            s = rng.random()
+            caught = s >= 0.35 and rng.random() < 0.08
+            h = rng.choice(H_CAUGHT) if caught else hostile(rng)
             if not h.strip() or h != h.strip():
                 h = b"<" + h.strip() + b">"
-            nodes = self.nodes(g, rng, rng.choice([0, 1, 2, 3]))
-            if rng.random() < 0.3:
-                # the SAME expression text also occurs unescaped (`!= e`) in a branch that is never taken, before or
-                # after the escaped use: how one code node is compiled must not depend on another one with equal text
-                codes = [n for n in nodes if n[0] == 'code']
-                if codes:
-                    twin = ('cond', ('id', b"never"), [('code', codes[0][1], False, codes[0][3])], None)
-                    nodes.insert(0 if rng.random() < 0.7 else len(nodes), twin)
+            m = MARK1 if caught else MARK
+            if s < 0.35:
+                nodes = self.gen_carriers(rng)
+            else:
+                nodes = self.gen_routes(rng, caught, MIX_B if s < 0.70 else MIX_C)
             other = rng.choice([b"x", b"ok", b"<keep>"])
+            pflag = rng.random() < 0.5
+            more = rng.random() < 0.3
+            hm_same = rng.random() < 0.4              # the value under the hostile key is hostile too
+            extra = rng.sample([b"!a", b"!b", b"~z", b"k2"], rng.choice([0, 0, 1, 2]))
+            # the other keys of hm must leave h and m at the same place of the sorted key order
+            extra = [e for e in extra if (e < h) == (e < m) and e != h]
+            safe = rng.choice([b"s1", b"ok", b"<u>", b"a&b"])
+            tg = rng.choice(ITAG_NAMES)
 
             def data(v):
-                return {b"h": v, b"ho": {b"k": v, b"z": other}, b"ha": [v] + ([other] if rng.random() < 0.3 else []),
-                        b"p": pflag, b"never": False}
-            pflag = rng.random() < 0.5
-            dh = data(h)
-            dm = {b"h": MARK, b"ho": {b"k": MARK, b"z": other}, b"ha": [MARK] + dh[b"ha"][1:], b"p": pflag, b"never": False}
-            cases.append({"nodes": ser(nodes), "datas": [ser(dh), ser(dm)], "h": h.hex(), "m": MARK.hex()})
+                hm = {v: v if hm_same else other}
+                for e in extra:
+                    hm[e] = other
+                return {b"h": v, b"ho": {b"k": v, b"z": other}, b"ha": [v] + ([other] if more else []), b"hm": hm,
+                        b"hn": {b"a": {b"b": v}, b"l": [v]}, b"hl": [{b"k": v}] + ([{b"k": other}] if more else []),
+                        b"hj": b"1" + v, b"p": pflag, b"never": False, b"s": safe, b"w": b"<i>", b"tg": tg}
+            cases.append({"nodes": ser(nodes), "datas": [ser(data(h)), ser(data(m))], "h": h.hex(), "m": m.hex()})
         return cases
 
+    # ---------------------------------------------------------------- harness / judge formats
+    def harness_case(self, case):
+        nodes, datas = de(case["nodes"]), [de(d) for d in case["datas"]]
+        return {"files": {hx("t"): hx(file_text(nodes))}, "render": hx("t"), "datas": [tmpl.data_go(d) for d in datas],
+                "debug": False}
+
     def emit(self, case, obs):
-        base = CoreProp.emit(self, case, obs)
+        nodes, datas = de(case["nodes"]), [de(d) for d in case["datas"]]
+        base = (b"{| c_nodes := " + cq_list([pc(n) for n in nodes])
+                + b"; c_datas := " + cq_list([tmpl.data_coq(d) for d in datas])
+                + b"; c_funcs := " + cq_list([cq_bytes(f) for f in FUNCS])
+                + b"; c_prod := " + obsm_coq(obs["prod"], len(datas)) + b"; c_debug := None |}")
         return (b"{| k_case := " + base + b"; k_h := " + cq_bytes(bytes.fromhex(case["h"])) + b"; k_m := "
-                + cq_bytes(bytes.fromhex(case["m"])) + b" |}")
+                + cq_bytes(bytes.fromhex(case["m"])) + b"; k_opaque := " + cq_bool(is_opaque(nodes)) + b" |}")
 
     def model_expr(self):
-        return ("(dom04 c, oracle04 c, agree04 c, "
-                "match model_toks false (k_case c) with Some ts => Some (string_of_list_ascii (show_toks ts)) | None => None end, "
+        return ("(dom04 c, oracle04 c, k_opaque c, if k_opaque c then 3 else agree04 c, "
+                "if k_opaque c then None else match model_toks false (k_case c) with Some ts => Some (string_of_list_ascii (show_toks ts)) | None => None end, "
+                "if k_opaque c then [] else "
                 "map (fun d => match model_out false (k_case c) d with OOk o => (0, string_of_list_ascii o) | OPanic => (1, EmptyString) "
                 "| OUnmod => (3, EmptyString) | OFuel => (4, EmptyString) end) (c_datas (k_case c)))")
 
+    def shrink(self, case):
+        nodes = de(case["nodes"])
+        out = [dict(case, nodes=ser(c)) for c in shrink_nodes(nodes)]
+
+        def inside(ns):
+            """shrink inside the kinds core.shrink_nodes does not descend into"""
+            for i, n in enumerate(ns):
+                if n[0] == 'itag':
+                    yield ns[:i] + n[3] + ns[i + 1:]
+                    for b in shrink_nodes(n[3]):
+                        yield ns[:i] + [n[:3] + (b,)] + ns[i + 1:]
+                    for b in inside(n[3]):
+                        yield ns[:i] + [n[:3] + (b,)] + ns[i + 1:]
+                elif n[0] == 'tag':
+                    for b in inside(n[5]):
+                        yield ns[:i] + [n[:5] + (b,)] + ns[i + 1:]
+                elif n[0] in ('each', 'call'):
+                    for b in inside(n[4]):
+                        yield ns[:i] + [n[:4] + (b,)] + ns[i + 1:]
+                elif n[0] == 'trycode' and len(n[1]) > 1:
+                    for j in range(len(n[1])):
+                        yield ns[:i] + [(n[0], n[1][:j] + n[1][j + 1:]) + n[2:]] + ns[i + 1:]
+        out += [dict(case, nodes=ser(c)) for c in inside(nodes)]
+        return out
+
+    # ---------------------------------------------------------------- evidence
     def nontrivial(self, case, obs):
         h = bytes.fromhex(case["h"])
         nodes = de(case["nodes"])
@@ -142,9 +525,56 @@ class C04(CoreProp):
         return any(c in h for c in b"<>\"'&") and not bare
 
     def sample(self, case, obs):
-        s = CoreProp.sample(self, case, obs)
-        s["hostile"] = bytes.fromhex(case["h"]).decode("utf-8", "replace")
-        return s
+        nodes = de(case["nodes"])
+        return {"pug_ast": json.loads(file_text(nodes).decode("utf-8", "replace")),
+                "data": [tmpl.data_plain(de(d)) for d in case["datas"]][:2],
+                "emitted_template": unhx(obs["prod"].get("code", "")).decode("utf-8", "replace")[:600],
+                "go_output": [unhx(r.get("out", "")).decode("utf-8", "replace")[:300] if r.get("class") == "ok" else r.get("class")
+                              for r in (obs["prod"].get("res") or [])][:2],
+                "hostile": bytes.fromhex(case["h"]).decode("utf-8", "replace"),
+                "opaque": is_opaque(nodes)}
+
+    def distribution(self, cases, obss):
+        kinds, classes = {}, {}
+        feat = {"opaque_cases": 0, "with_interpolated_tag": 0, "escaped_code_inside_interpolated_tag": 0, "with_try_catch": 0,
+                "caught_route_cases": 0, "prints_map_key_variable": 0, "each_with_key": 0, "with_mixin_call": 0,
+                "mixin_call_with_attributes": 0, "prints_attributes_member": 0, "with_unescaped_or_unbuffered_code": 0,
+                "with_multi_statement_code": 0, "escaped_code_after_state_setting_code": 0, "never_taken_twin": 0,
+                "both_renders_ok": 0, "hostile_string_reaches_output": 0}
+        for c, o in zip(cases, obss):
+            nodes = de(c["nodes"])
+            h = bytes.fromhex(c["h"])
+            alln = list(walk(nodes))
+            for n in alln:
+                kinds[n[0]] = kinds.get(n[0], 0) + 1
+            res = o["prod"].get("res") or [{"class": "load:" + o["prod"].get("load", "?")}]
+            for r in res:
+                classes[r.get("class")] = classes.get(r.get("class"), 0) + 1
+            if len(res) == 2 and all(r.get("class") == "ok" for r in res):
+                feat["both_renders_ok"] += 1
+                esc = h.replace(b"&", b"&amp;").replace(b"<", b"&lt;").replace(b">", b"&gt;").replace(b'"', b"&#34;").replace(b"'", b"&#39;")
+                feat["hostile_string_reaches_output"] += esc in unhx(res[0].get("out", ""))
+            feat["opaque_cases"] += is_opaque(nodes)
+            itags = [n for n in alln if n[0] == 'itag']
+            feat["with_interpolated_tag"] += bool(itags)
+            feat["escaped_code_inside_interpolated_tag"] += any(x[0] == 'code' and x[2] for t in itags for x in walk(t[3]))
+            feat["with_try_catch"] += any(n[0] == 'trycode' for n in alln)
+            feat["caught_route_cases"] += c["m"] == MARK1.hex()
+            keyed = [n for n in alln if n[0] == 'each' and n[2] is not None]
+            feat["each_with_key"] += bool(keyed)
+            feat["prints_map_key_variable"] += any(n[3] == ('id', b"hm") and any(
+                x[0] == 'code' and x[2] and n[2] in tgen.expr_vars(x[1][-1][1]) for x in walk(n[4])) for n in keyed)
+            calls = [n for n in alln if n[0] == 'call']
+            feat["with_mixin_call"] += bool(calls)
+            feat["mixin_call_with_attributes"] += any(n[3] for n in calls)
+            feat["prints_attributes_member"] += any(n[0] == 'code' and n[2] and n[1][-1][0] == 'expr'
+                                                    and b"attributes" in tgen.expr_vars(n[1][-1][1]) for n in alln)
+            raw = [i for i, n in enumerate(alln) if n[0] == 'code' and not n[2]]
+            feat["with_unescaped_or_unbuffered_code"] += bool(raw)
+            feat["with_multi_statement_code"] += any(n[0] == 'code' and len(n[1]) > 1 for n in alln)
+            feat["escaped_code_after_state_setting_code"] += bool(raw) and any(n[0] == 'code' and n[2] for n in alln[raw[0]:])
+            feat["never_taken_twin"] += any(n[0] == 'cond' and n[1] == ('id', b"never") for n in alln)
+        return {"node_kinds": kinds, "go_outcome_classes": classes, "features": feat}
 
 
 PROP = C04()
